@@ -86,7 +86,7 @@ def run_case(case):
         if '--trash-dir' in case['opts']:
             tdo0 = world.subst(case['opts'][case['opts'].index('--trash-dir') + 1], w.R)
         exp0, _ = case_expected(w, link_abs, case, tdo0, c01.fallback_on(case), None)
-        prompted = '-i' in case['opts'] and os.access(
+        prompted = case['optclass'] == '-i' and os.access(
             spelled if spelled.startswith('/') else os.path.join(cwd, spelled), os.F_OK)
         declined = prompted and not case.get('stdin', '').lower().startswith('y')
         s0 = w.snapshot()
